@@ -405,7 +405,7 @@ H("C14", "debugger::command::parse::verif_h::c14_arguments_tokens", PARSEF, cove
   functions=["Arguments::next_token_str", "Arguments::next_argument_str", "Arguments::arg_count"], what="tokenisation of every line <= 5 ASCII bytes", bounds="<= 5 bytes")
 H("C14", "debugger::command::parse::verif_h::c10_count_clamp", PARSEF, covers=2, stubs=[FMT], functions=["Arguments::next_positive_integer_or_default"],
   what="step into count: default 1, 0 -> 1", bounds="one decimal digit")
-for nm, q in [("len1", True), ("len2", True), ("len3", False), ("multibyte", True)]:
+for nm, q in [("len1", True), ("len2", False), ("len3", False), ("multibyte", True)]:
     H("C14", f"debugger::command::reader::stdin::verif_h::c14_transport_{nm}", STDINF, tier=("quick" if q else "thorough"), covers=1, timeout=3000, mem_gb=24,
       allow_unsat=[],
       stubs=["Stdin::read_byte -> next byte of the harness's byte queue (the OS read is the only thing replaced)"],
@@ -549,7 +549,11 @@ for nm, q in [("hex_2", True), ("hex_3", False), ("hex_neg_2", False), ("dec_1",
           functions=["Cursor::advance_token", "Cursor::hex", "Cursor::dec"],
           what=f"literal spelling '{nm}' (prefix, sign, number of symbolic digits): token value == numeric value (two's complement), token spans the literal", bounds="<= 3 digits")
 SPAN_STUBS = PE_STUBS + ["AsmParser::parse_instr -> its contract towards parse(): 'operands consumed up to byte E' / 'no operand'"]
-for nm, props in [("c17_span_statement", ["C17"]), ("c17_span_break_statement", ["C17", "C11"])]:
+for k in (0, 2):
+    H("C11", f"parser::verif_h::c11_break_directive_{k}", PAR, tier=("quick" if k == 2 else "thorough"), covers=1, timeout=2400, mem_gb=24,
+      stubs=PE_STUBS + ["AsmParser::parse_instr / parse_trap -> any result (not reached)"],
+      functions=["AsmParser::parse", "Breakpoints::insert"], what=f".break after {k} statements marks statement index {k}, flagged predefined, adds no word", bounds="one token")
+for nm, props in [("c17_span_statement", ["C17"])]:
     for pp in props:
         H(pp, f"parser::verif_h::{nm}", PAR, covers=2, stubs=SPAN_STUBS, timeout=2400, mem_gb=24,
           functions=["AsmParser::parse", "Air::add_stmt", "Breakpoints::insert"],
